@@ -71,6 +71,12 @@ class TemperatureUnitType(UnitType):
             return False
         return True
     
+    def _convert_Cel_Cel(self, value):
+        return value
+        
+    def _convert_degF_degF(self, value):
+        return value
+        
     def _convert_K_Cel(self, value):
         return value-273.15
         
@@ -183,6 +189,9 @@ class LogarithmicUnitType(UnitType):
         
     def _convert_Np_B(self, value):
         return value/(np.log(10)/2)
+        
+    def _convert_Np_Np(self, value):
+        return value
         
     def _convert_Ratio_B(self, value, exp, conv):
         return exp*np.log10(value*conv)
